@@ -26,6 +26,7 @@ def handle (line : String) : String :=
       | "leafsig" => Drv.opLeafSig j
       | "scope" => Drv.opScope j
       | "order" => Drv.opOrder j
+      | "imports" => Drv.opImports j
       | _ => .error s!"unknown op {op}"
     match r with
     | .ok o => o.compress
